@@ -82,7 +82,7 @@ func (rn *plugRunner) evalSeq(seq []int) {
 				n := len(rn.res.Violations)
 				rn.res.ViolateInput(plugPaths[v]+"/"+sig, "ip_set plugin: "+desc, sp.Input(seq, ai, plugPaths[v]))
 				if len(rn.res.Violations) > n {
-					rn.res.Violations[n].Cost = len(seq)
+					rn.res.Violations[n].Cost = ref.Cost(seq)
 				}
 			}
 		}
